@@ -932,6 +932,105 @@ bool vf_scope(const std::string &name, Scope &s)
     return true;
 }
 
+// extra engine: `huge <seed> <outdir> <tag>`: vectors of 2^31 .. 2^33 elements. The interposer satisfies the
+// multi-gigabyte requests with untouched MAP_NORESERVE mappings, the model is arithmetic only (no reference bytes):
+// size, capacity, at() addresses and abort behaviour, block size vs capacity, destructor calls when shrinking across
+// the 2^31 / 2^32 boundaries. Every count the library keeps in a type narrower than size_t shows here.
+namespace {
+struct HugeCtx { uint64_t dcalls; uintptr_t lo, hi; size_t es; bool bad; };
+HugeCtx *g_huge;
+void huge_dtor(void *e, void *priv)
+{
+    HugeCtx *h = g_huge;
+    if (priv != (void *)h) h->bad = true;
+    h->dcalls++;
+    if ((uintptr_t)e < h->lo || (uintptr_t)e + h->es > h->hi) h->bad = true;
+}
+int engine_huge(uint64_t seed, const char *outdir, const char *tag)
+{
+    double t0 = now_s();
+    g_cur.open(std::string(outdir) + "/cur-huge-" + tag + ".case");
+    Rng r(mix_seed(seed, 4242, 1));
+    uint64_t evals = 0;
+    std::vector<std::string> sample;
+    static const size_t ESZ[3] = {1, 2, 3};
+    const size_t P31 = (size_t)1 << 31, P32 = (size_t)1 << 32, P33 = (size_t)1 << 33;
+    for (int sc = 0; sc < 12; sc++) {
+        case_reset();
+        g_big_alloc_max = (size_t)1 << 36;
+        size_t es = ESZ[sc % 3];
+        bool with_dtor = sc % 2 == 0;
+        size_t pivot = sc < 4 ? P32 : sc < 8 ? P31 : (sc < 10 ? P33 : P32 + P31);
+        size_t up = pivot + 3 + r.below(40), down = pivot - 1 - r.below(40), mid = pivot + r.below(3);
+        HugeCtx hc{0, 0, 0, es, false};
+        g_huge = &hc;
+        struct cstl_vector v;
+        cstl_vector_init_complex(&v, es, nullptr, with_dtor ? huge_dtor : nullptr, &hc);
+        g_cur_op = "huge scenario";
+        char line[256];
+        snprintf(line, sizeof line, "es=%zu dtor=%d: resize(%zu) resize(%zu) resize(%zu) reserve/shrink; at() at the ends", es, (int)with_dtor, up, mid, down);
+        if (sample.size() < 3) sample.push_back(line);
+        auto check = [&](size_t want, const char *after) {
+            size_t sz, cap;
+            void *d;
+            LIB(sz = cstl_vector_size(&v));
+            LIB(cap = cstl_vector_capacity(&v));
+            LIB(d = cstl_vector_data(&v));
+            CHECK(sz == want, "C09.huge.size", "after %s: size %zu, expected %zu (es %zu)", after, sz, want, es);
+            CHECK(cap >= sz, "C09.cap_ge_size", "after %s: capacity %zu below size %zu", after, cap, sz);
+            size_t R = 0;
+            CHECK(d && lib_is_live(d, &R), "C09.block_live", "after %s: data %p is not a live library block", after, d);
+            CHECK((unsigned __int128)R >= ((unsigned __int128)cap + 1) * es, "C09.block_ge_cap", "after %s: block of %zu bytes for capacity %zu (es %zu)", after, R, cap, es);
+            hc.lo = (uintptr_t)d;
+            hc.hi = (uintptr_t)d + R;
+            for (size_t i : {(size_t)0, want / 2, want - 1}) {
+                void *p;
+                LIB(p = cstl_vector_at(&v, i));
+                CHECK((uintptr_t)p == (uintptr_t)d + i * es, "C09.at.addr", "after %s: at(%zu) = %p, expected %p", after, i, p, (void *)((uintptr_t)d + i * es));
+            }
+            for (size_t i : {want, want + 1, SIZE_MAX}) {
+                bool ab = may_abort([&] { (void)cstl_vector_at(&v, i); });
+                CHECK(ab, "C09.at.abort", "after %s: at(%zu) on a vector of %zu elements did not abort", after, i, want);
+            }
+            evals++;
+        };
+        bool ab = may_abort([&] { cstl_vector_resize(&v, up); });
+        if (ab || alloc_failures()) { lib_release_all(); CNT("noop.huge_alloc_refused"); continue; }   // no address space: inconclusive, not a failure
+        check(up, "growing resize");
+        uint64_t d0 = hc.dcalls;
+        LIB(cstl_vector_resize(&v, mid));
+        if (with_dtor) CHECK(hc.dcalls - d0 == up - mid, "C09.xtor.count", "shrinking from %zu to %zu ran the destructor %llu times", up, mid, (unsigned long long)(hc.dcalls - d0));
+        check(mid, "shrink to the boundary");
+        d0 = hc.dcalls;
+        LIB(cstl_vector_resize(&v, down));
+        if (with_dtor) CHECK(hc.dcalls - d0 == mid - down, "C09.xtor.count", "shrinking from %zu to %zu ran the destructor %llu times", mid, down, (unsigned long long)(hc.dcalls - d0));
+        CHECK(!hc.bad, "C09.xtor.addr", "destructor received a wrong priv or an element outside the block");
+        check(down, "shrink across the boundary");
+        LIB(cstl_vector_shrink_to_fit(&v));
+        check(down, "shrink_to_fit");
+        LIB(cstl_vector_reserve(&v, up + 7));
+        check(down, "reserve");
+        if (!with_dtor) {
+            LIB(cstl_vector_clear(&v));
+            size_t sz, cap;
+            LIB(sz = cstl_vector_size(&v));
+            LIB(cap = cstl_vector_capacity(&v));
+            CHECK(sz == 0 && cap == 0 && lib_live_count() == 0, "C09.clear", "clear of a huge vector leaves size %zu capacity %zu, %zu blocks", sz, cap, lib_live_count());
+        } else lib_release_all();     // clearing would run the destructor ~2^32 times: the object is abandoned instead
+    }
+    FILE *f = fopen((std::string(outdir) + "/stats-huge-" + tag + ".json").c_str(), "w");
+    if (f) {
+        fprintf(f, "{\"engine\":\"vector-huge\",\"harness\":\"vector\",\"prop\":\"C09\",\"evaluations\":%llu,\"nontrivial\":%llu,"
+                   "\"distinct_nontrivial\":0,\"distinct_extra\":%llu,\"wall_s\":%.3f,\"counters\":{},\"samples\":[",
+                (unsigned long long)evals, (unsigned long long)evals, (unsigned long long)evals, now_s() - t0);
+        for (size_t i = 0; i < sample.size(); i++) fprintf(f, "%s{\"ops\":[\"%s\"],\"nontrivial\":true}", i ? "," : "", sample[i].c_str());
+        fprintf(f, "],\"note\":\"vectors of 2^31..2^33 elements on untouched MAP_NORESERVE mappings; arithmetic model only\"}\n");
+        fclose(f);
+    }
+    return 0;
+}
+} // namespace
+
 // extra engine: `argtable-all <depth> <outdir>` = the argtable scope for all
 // 9 element sizes x 3 base states x {no xtor, ctor+dtor} in one process
 int vf_custom(int argc, char **argv)
@@ -947,6 +1046,7 @@ int vf_custom(int argc, char **argv)
         }
         return 0;
     }
+    if (argc >= 4 && !strcmp(argv[0], "huge")) return engine_huge(strtoull(argv[1], 0, 0), argv[2], argv[3]);
     fprintf(stderr, "unknown engine\n");
     return 2;
 }
